@@ -347,6 +347,7 @@ func run(c *tcase) (o outcome) {
 			failMsg = fmt.Sprintf(f, a...)
 		}
 	})
+	defer w.Release()
 	w.Auditor = cl.Clients[1]
 	done := make(chan struct{})
 	go func() {
